@@ -529,6 +529,18 @@ func (f *Frame) staticCall(in ssa.Instruction, fn *ssa.Function, binds []SV, arg
 	if fn.Origin() != nil {
 		key = funcKey(fn.Origin())
 	}
+	if rc := x.root; rc != nil && rc.contract != nil && f == rc {
+		for _, cl := range rc.contract.CallSpecs["@"+fn.Name()] {
+			e := rc.specEnv(st, rc.entrySt, nil)
+			for i, a := range args {
+				if i < len(fn.Params) {
+					e.vars[fmt.Sprintf("p%d", i)] = specVar{sv: a, typ: fn.Params[i].Type()}
+				}
+			}
+			e.prove = true
+			c.oblige("atcall", cl.Tags, g, e.boolClause(cl), f.where(in), "at call of "+fn.Name()+": "+cl.Text)
+		}
+	}
 	if m, ok := intrinsics[key]; ok {
 		if r, handled := m(f, in, args, cc, st, g); handled {
 			return r
@@ -573,6 +585,7 @@ func (f *Frame) staticCall(in ssa.Instruction, fn *ssa.Function, binds []SV, arg
 			_ = reach
 			st.heap = out.heap
 			st.marks = out.marks
+			st.views = out.views
 			switch len(res) {
 			case 0:
 				return SV{}
@@ -722,7 +735,7 @@ func (f *Frame) applyContract(in ssa.Instruction, ct *Contract, fn *ssa.Function
 	old := st.clone()
 	st.bumpWM()
 	mk := func(cur *State, results []SV) *SpecEnv {
-		e := &SpecEnv{x: x, c: c, st: cur, old: old, vars: map[string]specVar{}, pkg: pkgOf(fn, ct), guard: g}
+		e := &SpecEnv{x: x, c: c, st: cur, old: old, vars: map[string]specVar{}, pkg: pkgOf(fn, ct), guard: g, freshBase: old.wm()}
 		for n, v := range params {
 			e.vars[n] = specVar{sv: v, typ: ptypes[n]}
 		}
